@@ -43,6 +43,25 @@ LEDGER = {
     ("query::strip_namespace_member", "str-slice"): (1, "offset is the length of a prefix that `starts_with` just matched"),
     ("lower::attribute_path", "str-slice"): (1, "idx comes from str::find on the same string"),
 }
+# Vec/slice/arena indexing reachable from the query entry points: function -> (max sites incl. bounds-check asserts, reason)
+INDEX_LEDGER = {
+    "env::TypeEnv::build_enum_constructor": (2, "index obtained from enumerate()/position on the same variants vector"),
+    "hir::HirTable::*": (1, "arena/vector access by an id minted by the same table (package asserted equal first)"),
+    "hir::Path::namespace_segments": (1, "slice up to len-1 after an emptiness test"),
+    "hir::resolve_constructor_path": (3, "`matches[0]` after `matches.len() == 1`; candidate lists are non-empty by construction"),
+    "hir::resolve_constructors": (2, "arena access by ids collected from the same arena"),
+    "input::Input::<'t>::nth": (1, "inside `while idx < self.tokens.len()` (R04.7)"),
+    "parser::MarkerClosed::precede": (1, "marker index written by open()"),
+    "parser::MarkerOpened::completed": (1, "marker index written by open()"),
+    "parser::Parser::<'_>::build_tree": (2, "event indices: loop variable over 0..events.len() and forward_parent links"),
+    "parser::Parser::<'_>::close": (1, "marker index written by open()"),
+    "pipeline::packages::visit_package": (1, "`stack[pos..]` with pos from position() on the same stack"),
+    "query::colon_colon_completions": (1, "range ..len.saturating_sub(1)"),
+    "query::find_function_type": (1, "guarded by a length comparison in the same condition"),
+    "query::lookup_type_from_segments": (3, "segments is non-empty (checked by the callers); ..len-1"),
+    "query::path_segments_at_offset": (5, "byte scanning with bounds tests (R04.7)"),
+    "query::ident_prefix_at_offset": (1, "bytes[idx-1] under idx > 0 (R04.7)"),
+}
 HIR_TABLE_REASON = "HirTable accessor: assert_eq!(id.pkg, self.package) - ids are minted by this table for its own package (lower_to_hir_files_with_env creates one table per package)"
 
 
@@ -179,7 +198,28 @@ def r20_1(run, model, mir, g):
                f"{len(cs)} {k} site(s) ({norm_callee(c0['callee']).split('::')[-1]}{' via ' + c0['mac'] if c0['mac'] else ''})" +
                (f"; ledger (max {led[0]}): {led[1]}" if led else "; NOT in the ledger"),
                witness="a hover/completion request on an incomplete or non-ASCII text reaches this site and the editor service crashes")
-    run.ob("R20.1", "query path|index sites (listed, not ledgered)", True, None, f"{nindex} Vec/slice/arena indexing sites reachable from the query entry points")
+    # indexing sites: per-function ledger with a maximum count (resolved Index::index calls + MIR bounds-check asserts)
+    per_fn = {}
+    where = {}
+    for src, k, c in sites:
+        if k == "index":
+            per_fn[src] = per_fn.get(src, 0) + 1
+            where.setdefault(src, (c["file"], c["line"]))
+    for a_ in mir.raw["assert"]:
+        if a_["kind"] != "BoundsCheck":
+            continue
+        src = (a_["crate"], base_fn(a_["caller"]))
+        if src in R:
+            per_fn[src] = per_fn.get(src, 0) + 1
+            where.setdefault(src, (a_["file"], a_["line"]))
+    for (crate, fn_), cnt in sorted(per_fn.items()):
+        led = INDEX_LEDGER.get(fn_) or (INDEX_LEDGER.get("hir::HirTable::*") if fn_.startswith("hir::HirTable::") else None)
+        ok = led is not None and cnt <= led[0]
+        fl, ln = where[(crate, fn_)]
+        run.ob("R20.1", f"{crate}::{fn_}|index" + (f"|x{cnt}" if led and cnt > led[0] else ""), ok, site(fl, [ln]),
+               f"{cnt} indexing site(s)" + (f"; ledger (max {led[0]}): {led[1]}" if led else "; NOT in the ledger"),
+               witness="an index computed from user input (argument lists, segments, offsets) is out of range on an incomplete program and the query panics")
+    run.ob("R20.1", "query path|index sites", True, None, f"{sum(per_fn.values())} indexing sites in {len(per_fn)} functions reachable from the query entry points")
     run.floor("panic-capable sites examined on the query path", sum(len(v) for v in per.values()), 40)
 
 
